@@ -26,6 +26,8 @@ from mc import par
 from props import tagcases as tc
 from props import tagretry as tr
 
+from props import c01
+
 PROP = 'C03'
 CASES = {}
 WIPE = 0x5A
@@ -287,7 +289,7 @@ def replay(doc):
         info, results = tr.c03_retry(case, d['prev'], d['pattern'], d['n'],
                                      d.get('tier', 'quick'),
                                      only=tuple(d['fault']))
-        rc = 0
+        sigs = []
         for fault, name, fails, obs in results:
             print('attempt 1 disturbed from command %d (%s) on, %s, %s; then '
                   'retry on the same ndef object: %s' % (
@@ -295,10 +297,10 @@ def replay(doc):
             for sig, det in fails:
                 print('VIOLATION %s' % sig)
                 print('  %r' % (det,))
-                rc = 1
-        if not rc:
+                sigs.append(sig)
+        if not sigs:
             print('no violation for this case')
-        return rc
+        return c01._verdict(doc, sigs)
     if d['op'] == 'write':
         f = tc.check_write(case, d['prev'], d['pattern'], d['n'])
     else:
@@ -309,4 +311,4 @@ def replay(doc):
     if not f.items[PROP]:
         print('no violation for this case')
         return 0
-    return 1
+    return c01._verdict(doc, [sig for sig, det in f.items[PROP]])
